@@ -329,6 +329,7 @@ class Check:
 
     def finish(self):
         self.cov["distinct_nontrivial"] = len(self._nontrivial) + self.cov.pop("_dn_extra", 0)
+        self.cov.pop("_hangs_confirmed", None)
         ev = {"property_id": self.pid, "tier": self.tier, "seed": self.seed, "level": self.level,
               "coverage": self.cov, "assumptions": self.assumptions,
               "wall_s": round(time.time() - self.t0, 2), "violations": len(self.violations)}
